@@ -221,6 +221,15 @@ func (ck *checker) roundTrip(v starlark.Value) (reprText string, probs []problem
 		return "", probs
 	}
 	reprText = r
+	if s, ok := v.(starlark.String); ok && !utf8.ValidString(string(s)) {
+		// The property quantifies the repr and quoting laws over valid UTF-8 strings (the
+		// scanner refuses \x escapes of non-ASCII bytes in string literals by design);
+		// for any other string only "str of a string is the string itself" is demanded.
+		if got, err := ck.call1(ck.str, v); err != nil || got != string(s) {
+			bad("str-not-identity", "str(s) = %q, s = %q (err=%v)", got, string(s), err)
+		}
+		return reprText, probs
+	}
 	if !utf8.ValidString(r) {
 		bad("repr-not-utf8", "repr(v) is not valid UTF-8 source text: %q", r)
 	}
@@ -783,6 +792,15 @@ func levels(tier string) []level {
 		}
 		i -= 257
 		return bytCase(string([]byte{byte(i >> 8), byte(i)}))
+	}})
+	// 3b. strings (not bytes) of every byte and every pair of bytes: most are not valid UTF-8
+	// (a string is a byte sequence: indexing "é"[0] or a host value gives such strings)
+	ls = append(ls, level{name: "strings of every single byte and every byte pair, valid UTF-8 or not (65792)", n: 256 + 65536, gen: func(i int64) *vcase {
+		if i < 256 {
+			return strCase(string([]byte{byte(i)}))
+		}
+		i -= 256
+		return strCase(string([]byte{byte(i >> 8), byte(i)}))
 	}})
 	// 4. strings over class representatives
 	var reps []string
